@@ -9,7 +9,7 @@ import sqlite3
 import tempfile
 import time
 
-from .core import DEFAULT_SETTINGS, ENOVAL, Cache, Disk, Timeout
+from .core import DBNAME, DEFAULT_SETTINGS, ENOVAL, Cache, Disk, Timeout
 from .persistent import Deque, Index
 
 
@@ -35,7 +35,15 @@ class FanoutCache:
         directory = op.expandvars(directory)
 
         default_size_limit = DEFAULT_SETTINGS['size_limit']
-        size_limit = settings.pop('size_limit', default_size_limit) / shards
+        size_limit = settings.pop('size_limit', None)
+
+        def shard_settings(shard_directory):
+            # An existing shard keeps its stored size limit unless one is given.
+            if size_limit is not None:
+                return dict(settings, size_limit=size_limit / shards)
+            if not op.exists(op.join(shard_directory, DBNAME)):
+                return dict(settings, size_limit=default_size_limit / shards)
+            return settings
 
         self._count = shards
         self._directory = directory
@@ -45,8 +53,7 @@ class FanoutCache:
                 directory=op.join(directory, '%03d' % num),
                 timeout=timeout,
                 disk=disk,
-                size_limit=size_limit,
-                **settings,
+                **shard_settings(op.join(directory, '%03d' % num)),
             )
             for num in range(shards)
         )
